@@ -262,7 +262,7 @@ def cases(draw):
 
 
 def jobs(tier, seed):
-    per = 45 if tier == 'quick' else 1500
+    per = 36 if tier == 'quick' else 1500
     return [(core.derive_seed(seed, 'c11', i), per) for i in range(16)]
 
 
